@@ -216,4 +216,11 @@ func init() {
 	collectorHead := `(?s)func getConstructs\(c chan string, constructSequences chan \[\]Part\) \{\n(.*?)\tvar existingSeqhashes \[\]string\n`
 	fire("C09", "seen-hashes-list-pooled-with-its-content", cl, collectorHead, pooledList("*pooledHashes"), "STATE/pool-content")
 	silent("C09", "seen-hashes-list-pooled-and-cut-to-zero", cl, collectorHead, pooledList("(*pooledHashes)[:0]"))
+	fire("C16", "listing-viewed-as-a-string-without-a-copy", "io/rebase/rebase.go", `(?s)"io/ioutil"\n\t"strings"\n(.*?)\trebase := string\(file\)\n`, "\"io/ioutil\"\n\t\"strings\"\n\t\"unsafe\"\n${1}\trebase := *(*string)(unsafe.Pointer(&file))\n", "STATE/unsafe-alias")
+	readLoop := func(onError string) string {
+		return "\"bufio\"\n\t\"bytes\"\n${1}\tvar lines []string\n\tlineReader := bufio.NewReader(bytes.NewReader([]byte(gff)))\n\tfor {\n\t\tline, err := lineReader.ReadString('\\n')\n\t\tif err != nil {\n" + onError + "\t\t\tbreak\n\t\t}\n\t\tlines = append(lines, strings.TrimSuffix(line, \"\\n\"))\n\t}\n"
+	}
+	gffLines := `(?s)"bytes"\n(.*?)\tlines := strings\.Split\(gff, "\\n"\)\n`
+	fire("C14", "lines-read-until-the-first-error", "io/gff/gff.go", gffLines, readLoop(""), "STATE/last-line")
+	silent("C14", "lines-read-keeping-the-unterminated-one", "io/gff/gff.go", gffLines, readLoop("\t\t\tlines = append(lines, line)\n"))
 }
